@@ -72,8 +72,8 @@ def infinite_spec(rng, SI, Lmin=2, Lmax=4, charged=None, uniform=None, maxcell=2
         if not Lmin <= len(kinds) <= Lmax:
             continue
         spec = {'bc': 'infinite', 'sites': kinds, 'build': G.gen_infinite_build(rng, kinds)}
-        if spec['build']['method'] == 'singlets':
-            continue
+        if spec['build']['method'] == 'singlets' or (spec['build']['method'] == 'product' and rng.random() < 0.8):
+            continue            # (mostly entangled states without translation symmetry inside the unit cell)
         D = G.build_data_infinite(spec, SI)
         if spec['build']['method'] == 'bflat' and not D['ok']:
             continue
@@ -131,7 +131,7 @@ class Maker:
             if force[param] in exclude:
                 raise Infeasible()
             return force[param]
-        return self.rng.choice([c for c in CV.OPTION_SPACE[method][param] if c not in exclude])
+        return self.rng.choice([c.lstrip('?') for c in CV.OPTION_SPACE[method][param] if c.lstrip('?') not in exclude])
 
     def site_index(self, cls, L, n, bc):
         rng = self.rng
@@ -228,17 +228,25 @@ class Maker:
                 return rng.choice(cand)
             return mat_json(G.random_gate(self.nrng, S, [i], not real, unitary=all_uni or rng.random() < 0.5))
         op = {'op': m}
-        if ocls == 'single':
+        if ocls.startswith('single'):
             if len(set(S.kinds)) != 1:
                 raise Infeasible()
-            o = one(0)
-            op['single'] = o if o != 'Id' else mat_json(G.random_gate(self.nrng, S, [0], not real, unitary=all_uni))
+            if ocls == 'single:name':
+                cand = [x for x in named(S, 0, want_jw=False) if (not real or np.abs(S.op(0, x).imag).max() == 0) and
+                        (not all_uni or is_unitary(S.op(0, x)))]
+                if not cand:
+                    raise Infeasible()
+                op['single'] = rng.choice(cand)
+            else:
+                op['single'] = mat_json(G.random_gate(self.nrng, S, [0], not real, unitary=all_uni or rng.random() < 0.5))
         elif ocls == 'list:divisor':
             divs = [d for d in range(1, L) if L % d == 0 and all(S.kinds[i] == S.kinds[i % d] for i in range(L))]
             if not divs:
                 raise Infeasible()
-            d = rng.choice(divs)
+            d = rng.choice([x for x in divs if x > 1] or divs)
             op['ops'] = [one(i) for i in range(d)]
+            if d > 1 and all(o == op['ops'][0] for o in op['ops']):
+                op['ops'][-1] = mat_json(G.random_gate(self.nrng, S, [d - 1], not real, unitary=all_uni or rng.random() < 0.5))
         else:
             op['ops'] = [one(i) for i in range(L)]
         if ucls != 'default':
@@ -370,13 +378,14 @@ class Maker:
         pcls = self.pick(m, 'perm', force)
         op = {'op': m, 'perm': list(range(L)), 'invariant': True}
         if pcls == 'Lattice':
-            if len(set(S.kinds)) != 1:
+            if len(set(S.kinds)) != 1 or S.mod:
                 raise Infeasible()
             op['lattice'] = [1, L]          # one ring of L sites: translation by one site
             op['invariant'] = False
             op['perm'] = None
-        elif rng.random() < 0.6:
-            # (the permuted state has to live on the same sites: only sites of the same kind are exchanged)
+        elif rng.random() < 0.6 and not S.mod:
+            # (the permuted state has to live on the same sites: only sites of the same kind are exchanged; with charges the
+            #  overlap with the permuted state may vanish identically in the charge sector compute_K looks at)
             perm = list(range(L))
             for kind in set(S.kinds):
                 idx = [i for i in range(L) if S.kinds[i] == kind]
@@ -463,7 +472,7 @@ class Maker:
     def compress_svd(self, S, L, bc, force, real=False):
         rng = self.rng
         c = self.pick('compress_svd', 'trunc_par', force)
-        tp = {'chi_max': {'chi_max': rng.choice([1, 2, 3]), 'svd_min': 1e-14}, 'svd_min': {'chi_max': 100, 'svd_min': rng.choice([1e-3, 0.05, 0.2])},
+        tp = {'chi_max': {'chi_max': rng.choice([1, 1, 2, 3]), 'svd_min': 1e-14}, 'svd_min': {'chi_max': 100, 'svd_min': rng.choice([1e-3, 0.05, 0.2])},
               'trunc_cut': {'chi_max': 100, 'svd_min': 1e-14, 'trunc_cut': rng.choice([1e-2, 0.1])},
               'no-truncation': {'chi_max': 1000, 'svd_min': 1e-14}}[c]
         return [{'op': 'compress_svd', 'trunc': tp, 'trunc_class': c}]
@@ -617,8 +626,25 @@ class Maker:
     def extract_segment(self, S, L, bc, force, real=False):
         rng = self.rng
         m = 'extract_segment'
+        BK = '<recorded boundaries of a segment>'
+        pre = []
+        if bc == 'segment':
+            if L < 3:
+                raise Infeasible()
+            b = self.pick(m, BK, force)
+            want = {'kept-left': ('0', 'inner'), 'kept-right': ('inner', 'L-1'), 'dropped': ('inner', 'inner')}.get(b)
+            if want is not None:
+                if any(force.get(k_, w_) != w_ for k_, w_ in zip(('first', 'last'), want)):
+                    raise Infeasible()
+                force = dict(force, first=want[0], last=want[1])
+                # a canonical_form on the segment records the change of its outer bases
+                pre = self.apply_local_op(S, L, bc, {'op': rng.choice(['Array:1', 'Array:2']), 'unitary': 'False'}, real)
+        elif BK in force and force[BK] != 'none':
+            raise Infeasible()
         f = self.pick(m, 'first', force, exclude=('negative',) if bc != 'infinite' else ())
         l = self.pick(m, 'last', force, exclude=('beyond-cell',) if bc != 'infinite' else ())
+        if bc == 'segment' and f == '0' and l == 'L-1':
+            raise Infeasible()
         for _ in range(30):
             first = {'0': 0, 'inner': rng.randrange(1, max(2, L - 1)), 'negative': rng.randint(-L, -1)}[f]
             if l == 'L-1':
@@ -631,7 +657,7 @@ class Maker:
                 continue
             if int(np.prod([S.dims[i % L] for i in range(first, last + 1)])) > 300:
                 continue
-            return [{'op': m, 'first': first, 'last': last}]
+            return pre + [{'op': m, 'first': first, 'last': last}]
         raise Infeasible()
 
     def gauge_total_charge(self, S, L, bc, force, real=False):
@@ -757,12 +783,12 @@ def goals():
         if isinstance(space, str) or m == 'extract_enlarged_segment':
             continue
         for bc in space['<bc>']:
-            params = [p for p in space if not p.startswith('<') and not isinstance(space[p], str)]
+            params = [p for p in space if p != '<bc>' and not isinstance(space[p], str)]
             if not params:
                 out.append((m, bc, None, None))
             for p in params:
                 for c in space[p]:
-                    out.append((m, bc, p, c))
+                    out.append((m, bc, p, c.lstrip('?')))
     return out
 
 
@@ -775,6 +801,39 @@ def inf_segs(rng, L, dims):
     return segs
 
 
+def nonzero_history(spec, ops, D, SI):
+    """dense / unit-cell reference of the history: False when an operator application gives (almost) the zero vector or, for an
+    infinite state, a superposition without canonical form"""
+    import c09
+    bc = spec['bc']
+    if bc == 'segment' or D is None:
+        return True
+    try:
+        if bc == 'finite':
+            ref = c09.FRef(D['vec'], spec['sites'], SI)
+            for o in ops:
+                if ref.reseed or ref.trunc:
+                    return True
+                ref.apply(o, G.build_data(o['other'], SI) if o['op'] == 'add' and 'other' in o else None)
+                if (o['op'].startswith('apply_') and ref.raw_ratio < 1e-4) or np.linalg.norm(ref.vec) < 1e-6:
+                    return False
+            return True
+        ref = c09.IRef(D['Ms'], spec['sites'], SI)
+        for o in ops:
+            if o['op'] == 'extract_segment':
+                return True
+            ref.apply(o)
+            if ref.reseed:
+                return True
+            if not (ref.raw_ratio > 1e-4):
+                return False
+            if o['op'].startswith('apply_') and ref.tm().gap > 1 - 1e-4:
+                return False
+        return True
+    except Exception:
+        return True
+
+
 def gen_goal_case(rng, nrng, SI, goal):
     """one history realising `goal`; returns (case, data for the reference) or None"""
     m, bc, param, cls = goal
@@ -784,20 +843,23 @@ def gen_goal_case(rng, nrng, SI, goal):
         try:
             need_fermi = (m == 'apply_local_op' and cls == 'name-JW') or (m == 'apply_local_term' and cls == 'odd-JW')
             swapcls = force.get('swap_op')
-            uniform = (m == 'apply_product_op' and cls in ('single', 'list:divisor')) or (m == 'compute_K' and cls == 'Lattice')
+            uniform = (m == 'apply_product_op' and cls in ('single:name', 'single:Array', 'list:divisor')) or (m == 'compute_K' and cls == 'Lattice')
             charged = True if (m == 'gauge_total_charge' and rng.random() < 0.85) or cls == 'other-charge-gauge' else None
+            if m == 'compute_K' and (cls == 'Lattice' or rng.random() < 0.5):
+                charged = False
             nonfermi = swapcls == 'None'
             D = None
             if bc == 'finite':
-                spec = finite_spec(rng, SI, Lmin=3 if m in ('compress', 'extract_segment', 'subspace_expansion') or cls in ('Array:3', 'inner', 'reversal') else 2,
-                                   Lmax=6, fermi=need_fermi, charged=charged, uniform=uniform)
+                spec = finite_spec(rng, SI, Lmin=4 if cls == 'list:divisor' else (
+                    3 if m in ('compress', 'extract_segment', 'subspace_expansion') or cls in ('Array:3', 'inner', 'reversal') else 2),
+                    Lmax=6, fermi=need_fermi, charged=charged, uniform=uniform)
                 D = G.build_data(spec, SI)
                 real = False
             elif bc == 'infinite':
                 if m == 'compute_K':
                     spec, D = infinite_spec(rng, SI, 2, 4, charged=charged, uniform=uniform or rng.random() < 0.6, maxcell=16)
                 else:
-                    spec, D = infinite_spec(rng, SI, 3 if cls in ('inner',) else 2, 4, charged=charged, uniform=uniform)
+                    spec, D = infinite_spec(rng, SI, 4 if cls == 'list:divisor' else (3 if cls in ('inner',) else 2), 4, charged=charged, uniform=uniform)
                 real = (not spec['build'].get('cplx')) or spec['build']['method'] == 'product'
             else:
                 spec = segment_spec(rng, SI, nmin=3 if cls in ('Array:3', 'inner', 'reversal') or m == 'extract_segment' else 2)
@@ -810,7 +872,9 @@ def gen_goal_case(rng, nrng, SI, goal):
             if bc == 'infinite':
                 if rng.random() < 0.7:
                     ops.append({'op': 'convert_form', 'forms': G.gen_forms(rng, len(kinds))})
-            elif bc == 'segment' and m in ('extract_segment', 'add', 'group_sites', 'swap_sites', 'permute_sites') and rng.random() < 0.6:
+            elif bc == 'segment' and m == 'extract_segment':
+                pass            # (the maker decides whether the segment has recorded boundaries)
+            elif bc == 'segment' and m in ('add', 'group_sites', 'swap_sites', 'permute_sites') and rng.random() < 0.6:
                 # a segment whose outer bases were changed by a canonical_form (recorded in segment_boundaries)
                 S_ = G.Sites(kinds, SI)
                 ops += mk.apply_local_op(S_, len(kinds), bc, {'op': rng.choice(['Array:1', 'Array:2']), 'unitary': 'False'}, real)
@@ -844,6 +908,8 @@ def gen_goal_case(rng, nrng, SI, goal):
                 zero_S = m in ('enlarge_chi', 'subspace_expansion') or (m == 'add' and 'cutoff' in call[-1] and call[-1]['cutoff'] is None)
                 post, _ = follow_ups(mk, kinds_now, now_bc, SI, zero_S=zero_S, real=real, n=rng.randint(1, 2))
                 ops += post
+            if not nonzero_history(spec, ops, D, SI):
+                continue            # (an operator of the history annihilates the state: covered by the random streams)
             case = {'state': spec, 'ops': ops, 'want': {}, 'stream': 'options-' + bc, 'goal': list(goal)}
             if bc == 'infinite':
                 Lc = len(spec['sites'])
@@ -868,6 +934,7 @@ def gen_enlarged_segment_cases(rng, nrng, SI, reps):
     mk = Maker(rng, nrng, SI)
     out = []
     classes = [('add_unitcells', 'int'), ('add_unitcells', 'pair'), ('new_first_last', 'pair'), ('new_first_last', 'both-sides'), ('new_first_last', 'whole-finite-chain'),
+               ('new_first_last', 'left-only'), ('new_first_last', 'right-only'),
                ('new_first_last', 'unchanged'), ('cutoff', '1e-12'), ('cutoff', 'default')]
     for p, c in classes * reps:
         for attempt in range(30):
@@ -905,6 +972,12 @@ def gen_enlarged_segment_cases(rng, nrng, SI, reps):
                     nf, nl = first - 1, last + 1
                     if parent_bc == 'finite' and (nf < 0 or nl > Lp - 1):
                         continue
+                elif c in ('left-only', 'right-only'):
+                    nf, nl = (first - 1, last) if c == 'left-only' else (first, last + 1)
+                    if parent_bc == 'finite' and (nf < 0 or nl > Lp - 1):
+                        continue
+                    if not any(o_.get('unitary') is False for o_ in ops):     # recorded boundaries wanted
+                        continue
                 elif parent_bc == 'finite':
                     nf, nl = rng.randint(0, first), rng.randint(last, Lp - 1)
                 else:
@@ -937,33 +1010,71 @@ REFUSALS = [
     ('finite', {'op': 'call', 'method': 'enlarge_chi', 'args': [[0, 1]]}, 'enlarge_chi(extra_legs): length L+1 for finite'),
     ('finite', {'op': 'call', 'method': 'apply_product_op', 'args': [['Id', 'Id', 'Id', 'Id', 'Id', 'Id', 'Id']]}, 'apply_product_op: len(ops) has to divide L'),
     ('segment', {'op': 'call', 'method': 'extract_enlarged_segment', 'args': ['self', 'self', 0, 1]}, 'extract_enlarged_segment: either add_unitcells or new_first_last'),
-    ('finite', {'op': 'call', 'method': 'add', 'args': ['self-infinite', 1., 1.]}, 'add: "Works only for finite, segment boundary conditions"; same length'),
+    ('infinite-fermi', {'op': 'apply_local_op', 'i': 0, 'name': 'Cd', 'understood_infinite': True}, 'apply_local_op: an open Jordan-Wigner string in every unit cell of an infinite MPS'),
+    ('infinite-fermi', {'op': 'apply_local_term', 'term': [['Cd', 0], ['N', 1]]}, 'apply_local_term: an open Jordan-Wigner string in every unit cell of an infinite MPS'),
+    ('finite-fermi', {'op': 'swap_sites', 'i': 0, 'swap_op': 'fermionic'}, 'swap_sites(swap_op): None | auto | autoInv | Array'),
+    ('finite', {'op': 'call', 'method': 'swap_sites', 'args': [0], 'kwargs': {'swap_op': 5}}, 'swap_sites(swap_op): None | auto | autoInv | Array'),
+    ('segment', {'op': 'call', 'method': 'extract_enlarged_segment', 'args': ['self', 'self', 0, 1], 'kwargs': {'add_unitcells': 1, 'new_first_last': [0, 1]}},
+     'extract_enlarged_segment: either add_unitcells or new_first_last'),
+    ('segment', {'op': 'call', 'method': 'extract_enlarged_segment', 'args': ['self', 'self', 0, 1], 'kwargs': {'add_unitcells': [0, 1, 1]}},
+     'extract_enlarged_segment(add_unitcells : int | (int, int))'),
+    ('segment', {'op': 'call', 'method': 'extract_enlarged_segment', 'args': ['parent', 'parent', 'first', 'last'], 'kwargs': {'new_first_last': ['first+1', 'last']}},
+     'extract_enlarged_segment: the new range has to contain the segment'),
+    ('segment-finite', {'op': 'call', 'method': 'extract_enlarged_segment', 'args': ['parent', 'parent', 'first', 'last'], 'kwargs': {'new_first_last': [-1, 'last']}},
+     'extract_enlarged_segment: outside of the finite background state'),
+    ('finite', {'op': 'call', 'method': 'extract_enlarged_segment', 'args': ['self', 'self', 1, 2], 'kwargs': {'new_first_last': [0, 2]}},
+     'extract_enlarged_segment: "Extract an enlarged segment from an initially smaller segment MPS"'),
+    ('finite-charged', {'op': 'call', 'method': 'gauge_total_charge', 'args': [[[0], [0]]]}, 'gauge_total_charge(qtotal): one set of charges or one per site'),
+    ('segment', {'op': 'compress_svd', 'trunc': {'chi_max': 2}}, 'compress_svd: finite and infinite boundary conditions'),
+    ('finite', {'op': 'call', 'method': 'apply_local_op', 'args': [0, {'badop': 'unpaired'}]}, 'apply_local_op: the labels of op come in pairs l, l*'),
+    ('finite', {'op': 'call', 'method': 'apply_local_op', 'args': [0, {'badop': 'mixed'}]}, 'apply_local_op: labels either all end in numbers or none of them'),
+    ('finite', {'op': 'call', 'method': 'apply_local_op', 'args': [0, {'badop': 'mixed2'}]}, 'apply_local_op: labels either all end in numbers or none of them'),
+    ('finite', {'op': 'call', 'method': 'apply_local_op', 'args': [0, {'badop': 'p0only'}]}, 'apply_local_op: single-site operators have the labels p, p*'),
 ]
 
 
 def gen_refusal_cases(rng, nrng, SI):
     out = []
     for bc, call, why in REFUSALS:
-        if bc == 'finite':
-            spec = finite_spec(rng, SI, Lmin=3, Lmax=5)
-            while len(spec['sites']) in (1, 7):
-                spec = finite_spec(rng, SI, Lmin=3, Lmax=5)
+        D = None
+        if bc.startswith('finite'):
+            for _ in range(100):
+                spec = finite_spec(rng, SI, Lmin=3, Lmax=5, fermi=bc == 'finite-fermi', charged=True if bc == 'finite-charged' else None)
+                if len(spec['sites']) not in (1, 2, 7) and (bc != 'finite-charged' or len(G.FAMILY_MOD[G.KINDS[spec['sites'][0]][2]]) == 1):
+                    break
             D = G.build_data(spec, SI)
+        elif bc == 'infinite-fermi':
+            for _ in range(200):
+                spec, D = infinite_spec(rng, SI, 2, 3, charged=True)
+                if all(k.split(':')[0] == 'F' for k in spec['sites']):
+                    break
+            else:
+                continue
         elif bc == 'infinite':
             spec, D = infinite_spec(rng, SI, 2, 3)
         else:
-            spec, D = segment_spec(rng, SI), None
-        if call.get('method') == 'add':
-            continue
+            spec = segment_spec(rng, SI, parent_bc='finite' if bc == 'segment-finite' else None)
+        call = json_subst(call, spec)
         op = dict(call, must_raise=why)
-        if call.get('method') == 'extract_enlarged_segment':
-            continue
+        if 'parent' in str(call.get('args', '')):
+            op['parent'] = spec['parent']
         case = {'state': spec, 'ops': [op], 'want': {}, 'stream': 'refusals', 'goal': ['refusal', bc, call.get('method', call['op']), why]}
-        if bc == 'infinite':
+        if spec['bc'] == 'infinite':
             dims = [G.std_table(k)[0] for k in spec['sites']]
             case['want'] = {'rdm': inf_segs(rng, len(spec['sites']), dims)[:4]}
         out.append((case, D))
     return out
+
+
+def json_subst(x, spec):
+    """resolve 'first' / 'last' / 'first+1' tokens of a refusal template with the segment range of the state"""
+    if isinstance(x, dict):
+        return {k: json_subst(v, spec) for k, v in x.items()}
+    if isinstance(x, list):
+        return [json_subst(v, spec) for v in x]
+    if isinstance(x, str) and 'segment' in spec and x in ('first', 'last', 'first+1'):
+        return {'first': spec['segment'][0], 'last': spec['segment'][1], 'first+1': spec['segment'][0] + 1}[x]
+    return x
 
 
 def gen_cases(rng, nrng, SI, reps=1):
